@@ -190,6 +190,37 @@ static void run_prec(uint64_t idx, pv_rng* rng) {
     free(ex);
 }
 
+/* ---------------------------------------------------------------- long runs of redundant accents
+ * Spanish and French ignore accents however many are typed: a token of a valid phrase carrying 3 ... 200 combining marks (the
+ * whole decomposed phrase still fits the buffer) is the same word for the explicit decoders, so automatic detection must say so too. */
+static uint64_t n_marks(void) { return pv_scaled(600, 40000); }
+static void run_marks(uint64_t idx, pv_rng* rng) {
+    pv_mlang* L = pv_lang_by_name((idx & 1) ? "Spanish" : "French");
+    if (!L || !L->lib) return;
+    static const int KS[] = { 3, 10, 26, 27, 28, 31, 32, 33, 40, 63, 64, 65, 100, 127, 128, 150, 200 };
+    int K = KS[(idx / 2) % (sizeof KS / sizeof *KS)];
+    pv_mseed m; pv_gen_mseed(rng, 3, true, &m); unsigned coin = pv_gen_coin(rng), d[16]; pv_m_coeffs(&m, coin, d);
+    int p = (int)pv_randn(rng, 16); int ntok = 1 + (int)pv_randn(rng, 2);          /* one or two tokens carry the run */
+    char buf[4096]; size_t k = 0;
+    for (int i = 0; i < 16; ++i) {
+        const uint32_t* cp = L->cp[d[i]]; int n = L->ncp[d[i]];
+        bool flood = (i == p) || (ntok == 2 && i == (p + 5) % 16);
+        int after = flood ? (int)pv_randn(rng, (uint32_t)n) : -1;
+        for (int c = 0; c < n; ++c) {
+            k += (size_t)pv_utf8_encode(cp[c], buf + k);
+            if (c == after) for (int q = 0; q < (ntok == 2 ? K / 2 : K); ++q) k += (size_t)pv_utf8_encode(0x300 + pv_randn(rng, 0x70), buf + k);
+        }
+        if (i < 15) buf[k++] = ' ';
+    }
+    buf[k] = 0;
+    char* nf = pv_nfkd_alloc(buf); bool fits = strlen(nf) < POLYSEED_STR_SIZE; free(nf);
+    if (!fits) { PV_COUNT("marks.skipped(longer than the buffer)", 1); return; }
+    char* in = pv_exact_str(buf);
+    pv_countf(1, "marks.run_of_%d", K);
+    check_string(in, coin, "accent-run", rng, idx % 4 == 0);
+    free(in);
+}
+
 /* ---------------------------------------------------------------- the relation while other threads decode their own strings */
 static bool conc_iter(pv_rng* r, int iter, void* user, char* err, size_t errsz) {
     (void)iter; (void)user;
@@ -237,6 +268,6 @@ static void run_conc(uint64_t idx, pv_rng* rng) {
 }
 
 int main(int argc, char** argv) {
-    static const pv_section secs[] = { { "grammar", n_grammar, run_grammar }, { "ambiguous", n_ambig, run_ambig }, { "multi3", n_multi3, run_multi3 }, { "precedence", n_prec, run_prec }, { "concurrent", n_conc, run_conc } };
-    return pv_main(argc, argv, "C09", secs, 5, init, NULL);
+    static const pv_section secs[] = { { "grammar", n_grammar, run_grammar }, { "ambiguous", n_ambig, run_ambig }, { "multi3", n_multi3, run_multi3 }, { "precedence", n_prec, run_prec }, { "marks", n_marks, run_marks }, { "concurrent", n_conc, run_conc } };
+    return pv_main(argc, argv, "C09", secs, (int)(sizeof secs / sizeof *secs), init, NULL);
 }
